@@ -150,6 +150,32 @@ class TreeBuilder(ET.TreeBuilder):
         re.VERBOSE,
     )
 
+    def __init__(self, *args, **kwargs):
+        super().__init__(*args, **kwargs)
+        # Tags of the currently open elements.  ``ElementTree.TreeBuilder``
+        # neither matches end tags against start tags nor checks that
+        # everything has been closed, so we keep track ourselves.
+        self._open_tags: list = []
+
+    def start(self, tag, attrs):
+        self._open_tags.append(tag)
+        return super().start(tag, attrs)
+
+    def end(self, tag):
+        if not self._open_tags or self._open_tags[-1] != tag:
+            open_tag = self._open_tags[-1] if self._open_tags else None
+            raise ParseError(f"End tag </{tag}> doesn't match open tag <{open_tag}>")
+        self._open_tags.pop()
+        return super().end(tag)
+
+    def close(self):
+        if self._open_tags:
+            raise ParseError(f"Missing end tag(s) for {self._open_tags}")
+        root = super().close()
+        if root is None:
+            raise ParseError("No markup found")
+        return root
+
     def feed(self, data: str) -> None:
         """
         Iterate through all tags matched by regex.
